@@ -101,6 +101,12 @@ impl Clone for ErrorCode {
     proof { use_type_invariant(self); }
 //@end
 }
+pub proof fn lemma_error_code_ext(a: ErrorCode, b: ErrorCode)
+    requires a.code() == b.code(), a.reason_chars() == b.reason_chars(),
+    ensures a == b,
+{
+    axiom_string_ext(a.reason, b.reason);
+}
 pub open spec fn error_code_wire(code: int, reason: Seq<char>) -> Seq<u8> {
     seq![0u8, 0u8, (code / 100) as u8, (code % 100) as u8] + vstd::utf8::encode_utf8(reason)
 }
@@ -137,3 +143,20 @@ impl Encode for ErrorCode {
 }
 } // mod vx_error_code
 pub use vx_error_code::*;
+pub type ErrorCodeType = vx_error_code::ErrorCode;
+// what a well-formed ERROR-CODE value means (None = malformed)
+pub open spec fn error_code_unwire(raw: Seq<u8>) -> Option<ErrorCodeType> {
+    if raw.len() >= 4 && 3 <= raw[2] % 8 <= 6 && raw[3] <= 99 && vstd::utf8::valid_utf8(raw.subrange(4, raw.len() as int)) && raw.len() - 4 <= 763 {
+        Some(choose|e: ErrorCodeType| e.code() == (raw[2] % 8) * 100 + raw[3]
+            && vstd::utf8::encode_utf8(e.reason_chars()) == raw.subrange(4, raw.len() as int))
+    } else { None }
+}
+pub proof fn lemma_error_code_unwire_unique(raw: Seq<u8>, e: ErrorCodeType)
+    requires error_code_unwire(raw) is Some, e.code() == (raw[2] % 8) * 100 + raw[3],
+        vstd::utf8::encode_utf8(e.reason_chars()) == raw.subrange(4, raw.len() as int),
+    ensures error_code_unwire(raw) == Some(e),
+{
+    let e1 = error_code_unwire(raw)->Some_0;
+    lemma_utf8_injective(e1.reason_chars(), e.reason_chars());
+    lemma_error_code_ext(e1, e);
+}
